@@ -1,6 +1,7 @@
 import MtblProofs.TpProofs
 import MtblProofs.AccessProofs
 import MtblProofs.OwnerProofs
+import MtblProofs.TpKNoRace
 /-
   C14 — No data races in the concurrent uses the API allows (pool part).
   A race state = two different threads each have an enabled step, the two steps touch a common location, at least one
@@ -10,9 +11,12 @@ import MtblProofs.OwnerProofs
   The access labels of the machine are tied to mtbl/threadpool.c by a table REGENERATED FROM THE C SOURCE on every run
   (Mtbl.Generated.accessSites): `C14_sites_declared` and `C14_declared_in_model` below re-check it.
 
-  PARTIAL (DESIGN.md §8 C14): the machine has one caller and one result handler; several callers sharing one pool
-  (`pool->m`, `pool->c` with several waiters) are exercised only at run time under ThreadSanitizer (correspondence family
-  `mt`); the writer/sorter field partition (`C14_writer_*`, `C14_sorter_*`), reader immutability
+  SEVERAL CLIENTS ON ONE POOL: `TpK.C14.C14_norace_shared` at the end of this file is the same statement for the k-client
+  machine (MtblModel/TpK.lean: the pool owner, any number of clients each with its caller and result handler, the shared
+  workers), which runs in lockstep with threadpool.c under the deterministic scheduler (`tpmulti` family).
+
+  PARTIAL (DESIGN.md §8 C14), by nature: the C11 memory model is not formalised (a race state is defined by locksets); the
+  writer/sorter field partition (`C14_writer_*`, `C14_sorter_*`), reader immutability
   (`C14_reader_immutable`) and the single writer of the CRC function pointer (`C14_crc_pointer`) are table theorems over
   tables regenerated from the C source on every run, plus the same run-time check; the C11 memory model is not
   formalised.
@@ -85,3 +89,44 @@ def racyState : St :=
 example : raceBetween racyState .caller (.worker 0) = true := by decide
 
 end Tp.C14
+
+/-! ### several clients sharing one pool (k-client machine, `MtblModel/TpK.lean`)
+  The access labels are those of the one-client machine (`Tp.accesses`, tied to threadpool.c by `C14_declared_in_model`)
+  evaluated on each thread's view of the k-client state and relabelled with the client's own queue and its mutex. -/
+namespace TpK.C14
+
+/-- **C14, pool part, any number of clients.**  No reachable state of the k-client machine is a race state: for every number
+    of clients sharing the pool, every pool size, job count, ordered or unordered delivery and every schedule (spurious
+    wake-ups and the choice of the sleeper a signal wakes included), no two different threads — the pool owner, a client's
+    caller, a client's result handler, a worker — have enabled steps that touch a common location, at least one writing,
+    with no mutex held by both. -/
+theorem C14_norace_shared {n max njobs : Nat} {o : Bool} {s : St} (hr : Reachable n max njobs o s) :
+    ∀ w1 w2, raceBetweenK s w1 w2 = false := norace_reachable hr
+
+/-- in particular no access of one client's caller (`false`) or result handler (`true`) conflicts with an access of another
+    client's caller or handler (enabled or not) -/
+theorem C14_no_cross_client_race {n max njobs : Nat} {o : Bool} {s : St} (hr : Reachable n max njobs o s)
+    {c1 c2 : Nat} (h1 : c1 < s.cl.size) (h2 : c2 < s.cl.size) (hne : c1 ≠ c2) (r1 r2 : Bool) :
+    ∀ a ∈ clientAccesses s c1 r1, ∀ b ∈ clientAccesses s c2 r2, kConflict a b = false :=
+  no_cross_client_race hr h1 h2 hne r1 r2
+
+/-- … and a worker thread working for client c (held by c, or carrying an unordered job of c) never conflicts with the caller
+    or handler of a different client -/
+theorem C14_no_worker_client_race {n max njobs : Nat} {o : Bool} {s : St} (hr : Reachable n max njobs o s)
+    {t c c' : Nat} (hc : c < s.cl.size) (hc' : c' < s.cl.size) (hne : c ≠ c') (hw : worksFor s t c) (r : Bool) :
+    ∀ a ∈ workerAccesses s t, ∀ b ∈ clientAccesses s c' r, kConflict a b = false :=
+  no_worker_client_race hr hc hc' hne hw r
+
+/-- the domain facts hold in EVERY state (no invariant needed): a client's caller and handler touch only pool fields under
+    pool->m, fields of their own queue under its mutex, and fields of worker threads the client holds (or of an idle thread,
+    under pool->m) -/
+theorem C14_client_domain (s : St) (c : Nat) (r : Bool) : (clientAccesses s c r).all (inDomain s c) = true := by
+  cases r
+  · exact caller_inDomain s c
+  · exact handler_inDomain s c
+
+/-- non-vacuity: the race predicate fires outside the reachable set (two clients both holding worker 0: one reads its
+    `running` flag without a lock while the other writes it) -/
+example : raceBetweenK twoHolders (.client 0) (.client 1) = true := by decide
+
+end TpK.C14
